@@ -103,6 +103,10 @@ func verifHarness_S2(prop, shape, v, m, entry int) {
 	switch prop {
 	case 1:
 		verifC01(x, entry)
+	case 2:
+		verifC02(x, entry)
+	case 6:
+		verifC06(x, entry)
 	case 3:
 		verifC03(x, entry)
 	case 4:
